@@ -5,6 +5,7 @@ CONSTANTS
   FixA = TRUE
   FixB = TRUE
   FixC = TRUE
+  FixD = TRUE
 VIEW MCView
 INVARIANT TypeOK ImplWithinAllowed
 PROPERTY SafeStep OutcomeAllowedStep PiecesOnlyGrow GrowOnlyByGoodPayload
